@@ -28,6 +28,13 @@ def handleFilters (args : List String) : Option String :=
       | some none => "err"
       | none => "panic"
     | _, _, _, _ => "bad-args"
+  | ["filter_line_alpha", ft, bpp, d, p, ab] => some <|
+    match natArg ft, natArg bpp, ofHex d, ofHex p, natArg ab with
+    | some ft, some bpp, some d, some p, some ab =>
+      match filterLineAlpha ft bpp d p ab with
+      | some (d', out) => "ok " ++ toHex d' ++ " " ++ toHex out
+      | none => "panic"
+    | _, _, _, _, _ => "bad-args"
   | ["spec_recon", ft, bpp, d, p] => some <|
     match natArg ft, natArg bpp, ofHex d, ofHex p with
     | some ft, some bpp, some d, some p =>
